@@ -2184,3 +2184,215 @@ pub fn check_c11(sc: &Scenario, rr: &RunResult) -> Vec<Violation> {
     }
     v
 }
+
+// ---------------------------------------------------------------------------------------------
+// C17 / C18: establishment lanes
+// ---------------------------------------------------------------------------------------------
+
+fn estab_obs(rr: &RunResult) -> Option<crate::estab::EstabObs> {
+    rr.hist.iter().find_map(|e| match &e.kind {
+        EvKind::Note(n) => n.strip_prefix("estab ").and_then(|j| serde_json::from_str(j).ok()),
+        _ => None,
+    })
+}
+
+/// URL shape class for signatures.
+fn url_shape(c: &crate::estab::EstabCase) -> String {
+    use crate::estab::{HostForm, StdKind};
+    let mut s = c.scheme.clone();
+    if c.scheme == "ldap" || c.scheme == "ldaps" {
+        s.push_str(match c.host {
+            HostForm::Absent => "/host-absent",
+            HostForm::Ip6 => "/ipv6",
+            HostForm::Name => "/name",
+            HostForm::Ip4 => "/ipv4",
+        });
+        s.push_str(if c.explicit_port { "/port" } else { "/default-port" });
+        if c.starttls {
+            s.push_str("/starttls");
+        }
+    }
+    if c.scheme == "ldapi" {
+        if c.ldapi_empty {
+            s.push_str("/empty-path");
+        }
+        if c.ldapi_port {
+            s.push_str("/with-port");
+        }
+    }
+    match c.std_stream {
+        StdKind::None => {}
+        StdKind::Tcp => s.push_str("/std-tcp"),
+        StdKind::Unix => s.push_str("/std-unix"),
+        StdKind::Invalid => s.push_str("/std-invalid"),
+    }
+    if c.conn_timeout_ms.is_some() {
+        s.push_str("/timeout");
+    }
+    s
+}
+
+pub fn check_c18(sc: &Scenario, rr: &RunResult) -> Vec<Violation> {
+    use crate::estab::{Peer, StdKind};
+    let mut v = vec![];
+    let Ok(c) = serde_json::from_str::<crate::estab::EstabCase>(&sc.note) else { return v };
+    let Some(o) = estab_obs(rr) else { return v };
+    if o.skipped.is_some() {
+        return v;
+    }
+    let shape = url_shape(&c);
+    let api = if c.sync_api { "sync" } else { "async" };
+    if let Some(p) = o.outcome.strip_prefix("panic:") {
+        v.push(Violation::new("C18", "C18.panic", format!("{shape}/panic"), format!("{api} with_settings({:?}) panicked: {p}", o.url)));
+        return v;
+    }
+    let ok = o.outcome == "ok";
+    let tcp = c.scheme == "ldap" || c.scheme == "ldaps";
+    let needs_tls = tcp && (c.starttls && c.scheme == "ldap" || c.scheme == "ldaps");
+    // expectation from the statement
+    let mut want_ok: Option<bool> = None; // None = either
+    let mut want_reached: Option<Vec<&str>> = None;
+    let mut want_timeout = false;
+    if c.raw_url.is_some() {
+        want_ok = Some(false);
+        want_reached = Some(vec![]);
+    } else if c.scheme == "ldapi" && c.ldapi_empty && c.ldapi_port {
+        // "ldapi://:3" is not a URL at all
+        want_ok = Some(false);
+        want_reached = Some(vec![]);
+    } else if c.scheme == "ldapi" {
+        match c.std_stream {
+            StdKind::Unix => {
+                want_ok = Some(true);
+                want_reached = Some(vec![]);
+            }
+            StdKind::Tcp | StdKind::Invalid => {
+                want_ok = Some(false);
+                want_reached = Some(vec![]);
+            }
+            StdKind::None => {
+                if c.ldapi_empty || c.ldapi_port || c.peer == Peer::Absent {
+                    want_ok = Some(false);
+                    want_reached = Some(vec![]);
+                } else {
+                    want_ok = Some(true);
+                    want_reached = Some(vec!["unix"]);
+                }
+            }
+        }
+    } else if tcp {
+        match c.std_stream {
+            StdKind::Unix | StdKind::Invalid => {
+                want_ok = Some(false);
+                want_reached = Some(vec![]);
+            }
+            _ => {
+                let pre = c.std_stream == StdKind::Tcp;
+                let reach: Vec<&str> = if pre || c.peer == Peer::Absent { vec![] } else { vec!["url-endpoint"] };
+                want_reached = Some(reach);
+                if !pre && c.peer == Peer::Absent {
+                    want_ok = Some(false);
+                } else if !needs_tls {
+                    want_ok = Some(true);
+                } else {
+                    want_ok = Some(false);
+                    if c.peer == Peer::Stall {
+                        want_timeout = true;
+                    }
+                }
+            }
+        }
+    }
+    if let Some(w) = want_ok {
+        if ok != w {
+            v.push(Violation::new(
+                "C18",
+                if w { "C18.connect" } else { "C18.reject" },
+                format!("{shape}/{}", if w { "failed" } else { "accepted" }),
+                format!("{api} with_settings({:?}): expected {}, got {}", o.url, if w { "Ok" } else { "an error" }, o.outcome),
+            ));
+        }
+    }
+    if let Some(w) = want_reached {
+        let got: Vec<&str> = o.reached.iter().map(|s| s.as_str()).collect();
+        if got != w {
+            v.push(Violation::new("C18", "C18.endpoint", format!("{shape}/wrong-endpoint"), format!("{api} with_settings({:?}): endpoints reached {:?}, expected {:?} (outcome {})", o.url, got, w, o.outcome)));
+        }
+    }
+    if want_timeout {
+        let t = c.conn_timeout_ms.unwrap_or(0);
+        if o.outcome != "err:Timeout" {
+            v.push(Violation::new("C18", "C18.timeout", format!("{shape}/no-timeout-error"), format!("stalling peer and conn_timeout={t}ms: {}", o.outcome)));
+        } else if o.t_ms.abs_diff(t) > 1 {
+            v.push(Violation::new("C18", "C18.timeout", format!("{shape}/timeout-at-wrong-time"), format!("stalling peer and conn_timeout={t}ms: returned at t={}ms", o.t_ms)));
+        }
+    }
+    v
+}
+
+pub fn check_c17(sc: &Scenario, rr: &RunResult) -> Vec<Violation> {
+    use crate::estab::{HostForm, Peer, StartTlsResp, TlsBehaviour};
+    let mut v = vec![];
+    let Ok(c) = serde_json::from_str::<crate::estab::EstabCase>(&sc.note) else { return v };
+    let Some(o) = estab_obs(rr) else { return v };
+    if o.skipped.is_some() {
+        return v;
+    }
+    let Peer::Tls { starttls, tls } = &c.peer else { return v };
+    let api = if c.sync_api { "sync" } else { "async" };
+    let cfg = format!(
+        "{}{}/{}{}{}",
+        c.scheme,
+        if c.scheme == "ldap" { "+starttls" } else { "" },
+        if c.trust_ca { "custom-connector" } else { "default-connector" },
+        if c.no_tls_verify { "/no-verify" } else { "" },
+        if c.host == HostForm::Ip4 { "/wrong-name" } else { "" }
+    );
+    let beh = format!("{:?}/{:?}", starttls, tls).replace(|ch: char| ch.is_ascii_digit(), "").replace("()", "");
+    if let Some(p) = o.outcome.strip_prefix("panic:") {
+        v.push(Violation::new("C17", "C17.panic", format!("panic/{beh}"), format!("{api} with_settings({:?}) panicked: {p}", o.url)));
+        return v;
+    }
+    let ok = o.outcome == "ok";
+    let starttls_scheme = c.scheme == "ldap";
+    let good_starttls = !starttls_scheme || matches!(starttls, StartTlsResp::Success | StartTlsResp::SuccessPlusInjected);
+    let cert_ok = c.trust_ca && c.host == HostForm::Name;
+    let must_err = !good_starttls || *tls != TlsBehaviour::Good || (!cert_ok && !c.no_tls_verify);
+    let must_ok = good_starttls && *tls == TlsBehaviour::Good && (cert_ok || (c.no_tls_verify && !c.trust_ca));
+    // (a) nothing but the StartTLS request in cleartext
+    if o.peer.other_cleartext_pdus > 0 {
+        v.push(Violation::new("C17", "C17.a", format!("ldap-pdu-in-cleartext/{cfg}"), format!("{api} {:?}: the server saw {} LDAP PDU(s) in cleartext besides the StartTLS request: {} {:?}", o.url, o.peer.other_cleartext_pdus, o.peer.cleartext, o.peer.notes)));
+    }
+    if starttls_scheme && o.peer.accepted > 0 && !o.peer.starttls_request_seen && o.peer.cleartext != "no-complete-ldap-message" {
+        v.push(Violation::new("C17", "C17.a", format!("first-cleartext-message-not-starttls/{cfg}"), format!("{api} {:?}: {}", o.url, o.peer.cleartext)));
+    }
+    // (b) a usable handle only after a completed, acceptable handshake
+    if ok && !o.peer.handshake_completed {
+        v.push(Violation::new("C17", "C17.b", format!("ok-without-handshake/{beh}/{cfg}"), format!("{api} with_settings({:?}) returned Ok but the server never completed a TLS handshake", o.url)));
+    }
+    if ok && must_err {
+        v.push(Violation::new("C17", "C17.b", format!("ok-although-establishment-must-fail/{beh}/{cfg}"), format!("{api} with_settings({:?}) returned Ok (StartTLS response {:?}, TLS {:?}, trust_ca={}, no_tls_verify={}, host {:?})", o.url, starttls, tls, c.trust_ca, c.no_tls_verify, c.host)));
+    }
+    if !ok && must_ok {
+        v.push(Violation::new("C17", "C17.ok", format!("failed-although-everything-is-in-order/{cfg}"), format!("{api} with_settings({:?}): {} (peer notes {:?})", o.url, o.outcome, o.peer.notes)));
+    }
+    // (c) injected cleartext is never an answer inside the protected session
+    if let Some(b) = &o.bind {
+        if b.contains("INJECTED") {
+            v.push(Violation::new("C17", "C17.c", format!("injected-cleartext-reply-accepted/{cfg}"), format!("{api} {:?}: the bind inside TLS returned the reply that was injected in cleartext after the StartTLS response", o.url)));
+        } else if ok && *starttls != StartTlsResp::SuccessPlusInjected && b != "ok:INSIDE-TLS" {
+            v.push(Violation::new("C17", "C17.ok", format!("protected-bind-failed/{cfg}"), format!("{api} {:?}: {b}", o.url)));
+        } else if ok && *starttls == StartTlsResp::SuccessPlusInjected && b != "timeout" {
+            v.push(Violation::new("C17", "C17.c", format!("unanswered-protected-bind-did-not-time-out/{cfg}"), format!("{api} {:?}: {b}", o.url)));
+        }
+    }
+    // timeouts bound the establishment
+    if let Some(t) = c.conn_timeout_ms {
+        if o.outcome != "err:Timeout" {
+            v.push(Violation::new("C17", "C17.timeout", format!("no-timeout-error/{beh}"), format!("silent peer and conn_timeout={t}ms: {}", o.outcome)));
+        } else if o.t_ms.abs_diff(t) > 1 {
+            v.push(Violation::new("C17", "C17.timeout", format!("timeout-at-wrong-time/{beh}"), format!("silent peer and conn_timeout={t}ms: returned at t={}ms", o.t_ms)));
+        }
+    }
+    v
+}
